@@ -22,7 +22,7 @@ from tools import common, shroudrun
 LEVEL = "proof"
 MANIFEST = dict(
     category="proof",
-    text="Lean 4 theorems (64 audited, no size bound) on a model of the plain C API assembly of wrapc.py (language c++ and language c). "
+    text="Lean 4 theorems (72 audited, no size bound) on a model of the plain C API assembly of wrapc.py (language c++ and language c). "
          "Call equivalence for ALL parameter lists and values of the modelled kinds: native/bool/struct by value, pointer, reference; "
          "native `T **` / `T *&`; char by value, `char *`, `char **`, `void **`; enum by value and (after fix f9c4cc7) by pointer/"
          "reference; std::string by value and by pointer/reference with intent in/out/inout; class instances by value/pointer/"
@@ -47,10 +47,11 @@ MANIFEST = dict(
          "the built tree holds entry i at key i (table_tree_entries). `_partial`: "
          "plain_keys_reach_plain_entries_partial - kinds listed under not_modelled only get 'unreachable from plain keys'; "
          "enum_indirect_old_code_ill_typed is a witness about the code before f9c4cc7. "
-         "Props/C02Lang.lean (22): `language: c` libraries over the regenerated c table (entriesC): every entry a C declaration "
+         "Props/C02Lang.lean (30): `language: c` libraries over the regenerated c table (entriesC): every entry a C declaration "
          "reaches (native/bool/char/enum/struct by value and pointer, T **, char **, void **, callbacks) is an identity plan - no "
-         "C++ local, no cast, no capsule, no copy back (c_table_arg_shapes, c_table_res_shapes, c_table_differs_from_cxx), the callee "
-         "receives the C values themselves for ALL parameter lists and ALL values, no typing hypothesis (c_arg_identity, "
+         "C++ local, no value conversion, no capsule, no copy back; only a pointer to an enum is cast to the library's pointer type "
+         "in a local (fix d89e330) (c_table_arg_shapes, c_table_res_shapes, c_table_differs_from_cxx), the callee "
+         "receives the C values themselves for ALL parameter lists and all values a caller can form (c_arg_identity, "
          "c_args_identity by induction, c_result_identity), a wrapper exists only for C_force_wrapper / C_error_pattern / a splicer "
          "(c_need_wrapper; deref(scalar) and language c++ always: need_wrapper_cxx_and_deref) and with or without it the caller of "
          "the generated name reaches the library function with its own arguments and gets its return value (c_call_equivalence). "
@@ -63,7 +64,13 @@ MANIFEST = dict(
          "returned, in both languages; a null result is dereferenced unchecked (table_deref_scalar, deref_scalar_result, "
          "deref_scalar_null_undefined). Enum returned by pointer / reference (after fix 0e96fba): the address of the very object as "
          "int * (table_enum_indirect_result, enum_indirect_result; enum_indirect_result_old_code_ill_typed is the witness about the "
-         "code before).",
+         "code before). Statement keys extended by a template argument (lookup_c_statements appends the argument's sgroup), for ANY "
+         "tree and path: the lookup continues from the node reached for the shorter key; a child carrying an entry wins, otherwise "
+         "the shorter key's result is kept (lookup_extra_component, lookup_template_fallback, lookup_template_specialised; "
+         "lookup_longest_match already covers paths of any length). Declaration-level fstatements (lookup_local_stmts: the "
+         "dictionary becomes a Scope over the looked-up entry): for ALL dictionaries and entries a named clause is replaced by the "
+         "dictionary's last value of that name and every clause not named is kept (override_named, override_keeps, set_get_same, "
+         "set_get_other); only mode update merges (local_stmts_modes).",
     design="3 C02",
     note="Tie: (T) tools/extract_cstmts.py regenerates Gen/CStmts.lean on every run (82 c_* entries, 37 template lines and the "
          "typemap conversion patterns mapped to op codes by an explicit pattern table; an unmapped line is written as op 99, reported as a broken tie and breaks the table theorems, then the oracle searches). (D) real "
@@ -99,8 +106,13 @@ MANIFEST = dict(
          "library's own header (gcc -std=c99 / g++ -fsyntax-only -Werror), a C-library wrapper passes its own parameters in order "
          "and casts nothing, the pattern block follows the call and precedes capsule assignments / return. The semantics given to "
          "the pattern block (runResultP: a function of the scope variable that may return early) and to `return *x` are modelled. "
-         "Not modelled: bufferify/CFI entries (vectors, character buffers, contexts), MPI_Comm, template-argument specialisations "
-         "of statements, fstatements overrides, deref(scalar) on a reference result (does not compile), the `final` clause (empty "
+         "Template / fstatements tie: lookup correspondence over keys with a 7th template component (vector / string / native x "
+         "pointer x intent x suffix x cdesc x 8 argument groups); driver op ovr (localStmts over the regenerated entry) against the "
+         "real lookup_local_stmts as called by wrap_function on generated C and C++ libraries whose functions carry fstatements "
+         "{c: {...}} dictionaries naming random clause subsets with mode update / replace / none (fstatements_tie_distribution): "
+         "per clause, whether the merged statements return the dictionary's or the entry's value. The text of overriding lines is "
+         "not interpreted (the body of a function with fstatements is not compared). "
+         "Not modelled: bufferify/CFI entries (vectors, character buffers, contexts: their lines are op 0), MPI_Comm, deref(scalar) on a reference result (does not compile), the `final` clause (empty "
          "in every plain entry), C_error_pattern on a result-as-argument beyond its scope, patterns naming {cxx_var} on a subroutine "
          "(Shroud stops with a template error).",
     technique="Lean 4 proof (induction over parameter lists and paths, decide +kernel over regenerated tables) + differential "
@@ -175,13 +187,20 @@ THEOREMS = {
         "Shroud.WrapC.c_call_equivalence",
         "Shroud.WrapC.c_table_differs_from_cxx",
         "Shroud.WrapC.need_wrapper_cxx_and_deref",
+        "Shroud.WrapC.lookup_extra_component",
+        "Shroud.WrapC.lookup_template_fallback",
+        "Shroud.WrapC.lookup_template_specialised",
+        "Shroud.WrapC.set_get_same",
+        "Shroud.WrapC.set_get_other",
+        "Shroud.WrapC.override_keeps",
+        "Shroud.WrapC.override_named",
+        "Shroud.WrapC.local_stmts_modes",
     ],
 }
 
 UNMODELLED = ["entries with a buf/cfi/cdesc part (bufferify / CFI API: std::vector, character buffers, array contexts)",
-              "MPI_Comm", "template-argument specialisations of statement keys", "deref(scalar) on a reference result",
-              "fstatements overrides", "C_error_pattern whose text names {cxx_var} on a subroutine (template error in Shroud)",
-              "language c: the static type of an enum pointer handed on without a cast (known finding)",
+              "MPI_Comm", "deref(scalar) on a reference result",
+              "the text of lines supplied by fstatements overrides (which clauses win is modelled)", "C_error_pattern whose text names {cxx_var} on a subroutine (template error in Shroud)",
               "the C naming rule (overload numbers, suffix lists, template suffixes) is checked by the harness, not proved in Lean"]
 
 
@@ -383,6 +402,8 @@ def classify_conversion(lines, cxx_var, c_var):
             return "structA"
         if re.search(r"static_cast<(const )?void \*>\(\s*%s\)" % cv, l):
             return "structP"
+        if re.search(r"=\s*\((const )?[\w:]+ \*\)\s*%s;" % cv, l):
+            return "structP"        # language c: the pointer cast to the library's pointer type
         if re.search(r"=\s*static_cast<[^<>]*[^*\s]>\(%s\)" % cv, l):
             return "castEnum"
         return "other"
@@ -707,6 +728,7 @@ def run_tie(ctx, ok, thorough, xinfo):
 
     work = common.scratch()
     reqs, meta = [], []
+    ovr_reqs, ovr_real = [], []
     # ---- (1) lookup correspondence over the whole key domain (tree of the c++ run)
     lk_reqs, lk_real = [], []
     try:
@@ -757,6 +779,16 @@ def run_tie(ctx, ok, thorough, xinfo):
                                         path = ["c", a, b, c, s, e, e2]
                                         lk_reqs.append("lookup " + ",".join(str(it(p)) for p in path))
                                         lk_real.append(statements.lookup_fc_stmts(path).name)
+                # keys extended by a template argument's sgroup (lookup_c_statements: vector<native>, vector<string>, ...)
+                for b in ("scalar", "*", "&"):
+                    for c in ("in", "out", "inout", "result"):
+                        for sx in ("", "buf", "cfi"):
+                            for cd in (None, "cdesc"):
+                                for targ in ("native", "string", "bool", "char", "shadow", "struct", "vector", "zzz"):
+                                    for sgx in ("vector", "string", "native"):
+                                        path = ["c", sgx, b, c, sx, cd, targ]
+                                        lk_reqs.append("lookup " + ",".join(str(it(p)) for p in path))
+                                        lk_real.append(statements.lookup_fc_stmts(path).name)
                 for _ in range(3000 if thorough else 800):
                     path = ["c"] + [r.choice(partnames + ["zz", ""]) for _ in range(r.randrange(0, 7))]
                     lk_reqs.append("lookup " + ",".join(str(it(p)) for p in path))
@@ -784,6 +816,59 @@ def run_tie(ctx, ok, thorough, xinfo):
                               captured["language"])
                 common.rmtree(d)
         ctx.note("language_tie_distribution", dict(sorted(lang_kinds.items())))
+        # declaration-level `fstatements: {c: {...}}` overrides: which clauses of the merged statements come from the
+        # dictionary (real lookup_local_stmts as called by wrap_function) versus the model's localStmts / applyOverride
+        CLAUSES = ["cxx_local_var", "c_local_var", "buf_args", "buf_extra", "c_arg_decl", "arg_call", "pre_call", "call",
+                   "post_call", "ret", "return_type", "owner"]
+        name_idx = {"cxx": {"_".join(rw["key"]): k for k, rw in rows["cxx"].items()},
+                    "c": {"_".join(rw["key"]): k for k, rw in rows["c"].items()}}
+        orig_lls = statements.lookup_local_stmts
+        lls = {}
+
+        def spy_lls(path, parent, node):
+            res = orig_lls(path, parent, node)
+            lls[node.ast.name] = (path, parent, res)
+            return res
+        statements.lookup_local_stmts = spy_lls
+        ovr_kinds = {}
+        try:
+            for lang, n in (("c", 16 if thorough else 6), ("c++", 16 if thorough else 6)):
+                for i in range(n):
+                    spec = c02langgen.gen_spec(r2, "lf%s%d" % ("c" if lang == "c" else "x", i), lang, fstatements=True)
+                    d = os.path.join(work, "f%s%d" % (lang[:1] + str(len(lang)), i))
+                    os.makedirs(d)
+                    y = shroudrun.write_yaml(d, spec.name + ".yaml", spec.yaml())
+                    captured.clear(); bodies.clear(); snaps.clear(); cur.clear(); lls.clear()
+                    cfg, exc, out = shroudrun.run_inproc([y], d)
+                    common.rmtree(d)
+                    if exc is not None or "lib" not in captured:
+                        ctx.fail("c02:shroud-exception:fstatements:%s:%s" % (lang, type(exc).__name__),
+                                 "Shroud failed on a generated %s description with fstatements: %r" % (lang, exc), {"yaml": spec.yaml()})
+                        continue
+                    for k, v in spec.kinds.items():
+                        if k.startswith("fstatements:"):
+                            ovr_kinds["%s %s" % (lang, k)] = ovr_kinds.get("%s %s" % (lang, k), 0) + v
+                    L = "c" if lang == "c" else "cxx"
+                    for fname, (named, mode) in sorted(spec.overrides.items()):
+                        if fname not in lls:
+                            continue
+                        path, parent, res = lls[fname]
+                        real = ""
+                        for cl in CLAUSES:
+                            v = res.get(cl, None)
+                            if cl in named and v == c02langgen.OVR_VALUES[cl]:
+                                real += "o"
+                            elif v == parent.get(cl, None):
+                                real += "b"
+                            else:
+                                real += "?"
+                        idx = name_idx[L].get(parent.name, "-")
+                        ovr_reqs.append("ovr %s %s 1%d %s" % ("c" if lang == "c" else "x", idx, int((mode or "update") == "update"),
+                                                              ",".join(str(CLAUSES.index(c)) for c in named) or "-"))
+                        ovr_real.append((real, "%s:%s named=%s mode=%s base=%s" % (spec.name, fname, named, mode, parent.name), spec.yaml()))
+        finally:
+            statements.lookup_local_stmts = orig_lls
+        ctx.note("fstatements_tie_distribution", dict(sorted(ovr_kinds.items())))
         # corpus
         corpus = [c for c in shroudrun.CORPUS if "wrap_c=false" not in c[2]]
         if not thorough:
@@ -823,6 +908,17 @@ def run_tie(ctx, ok, thorough, xinfo):
         ctx.tie_broken("lookup-correspondence", lbad[:6])
     ctx.note("lookup_disagreements", len(lbad))
     ctx.note("lookup_distinct_entries_reached", len({x for x in lk_real}))
+    orep = drv.run(ovr_reqs) if ovr_reqs else []
+    obad = []
+    for q, (real, where, y), m in zip(ovr_reqs, ovr_real, orep):
+        ctx.count(1)
+        if real != m:
+            obad.append({"request": q, "where": where, "real": real, "model": m})
+        else:
+            ctx.nontrivial(("ovr", q.split(" ", 3)[2:] and q.split(" ")[3] + q.split(" ")[4]))
+    ctx.note("fstatements_requests", len(ovr_reqs))
+    if obad:
+        ctx.tie_broken("fstatements-override-correspondence", obad[:6])
     rep = drv.run(reqs) if reqs else []
     fmeta = [m for m in meta if m[0] == "func"]
     errs = [m for m in meta if m[0] == "error"]
@@ -909,12 +1005,17 @@ def lang_oracle(ctx, thorough):
                             params = [re.sub(r"\(\*(\w+)\)\(.*", r"\1", a).split()[-1].lstrip("*") for a in proto.split(",")
                                       if a.strip() != "void"] if proto.strip() else []
                             calls = [l for l in lines if re.search(r"\bf\d+\(", l)]
-                            if "static_cast" in body or re.search(r"=\s*\([\w ]+\*?\)\s*\w", body):
+                            # the one conversion of a C library: a pointer to an enum (declared `int *`) cast to the library's type
+                            enum_cast = dict((m2.group(2), m2.group(3)) for m2 in re.finditer(
+                                r"(const )?Color \* (SHCXX_\w+) = \((?:const )?Color \*\) (\w+);", body))
+                            rest = re.sub(r"(const )?Color \* SHCXX_\w+ = \((const )?Color \*\) \w+;", "", body)
+                            if "static_cast" in rest or re.search(r"=\s*\([\w ]+\*?\)\s*\w", rest):
                                 ctx.fail("c02:lang:c-wrapper-casts", "the wrapper %s of a C library converts a value (C and C have the same "
                                          "types: nothing is to be converted)" % cname, dict(rp, expected="no cast", actual=body[:400]))
                                 return
                             if len(calls) == 1:
                                 got = [a.strip() for a in re.search(r"\bf\d+\((.*)\);", calls[0]).group(1).split(",") if a.strip()]
+                                got = [enum_cast.get(a, a) for a in got]
                                 if got != params:
                                     ctx.fail("c02:lang:c-wrapper-arguments", "the wrapper %s of a C library must hand its own parameters to the "
                                              "library function unchanged and in declaration order" % cname,
